@@ -578,8 +578,33 @@ def h_index(mutable):
             if idx.lo >= v.len.hi:
                 return DIVERGE
             return Rf((place[0], place[1], place[2] + (("e",),)) if place is not None else None, v.elem, mutable), st
-        # range index -> subslice
-        return Rf(place, v, mutable), st
+        # range index -> subslice of known length when the bounds are known
+        rng = ip.materialize(idx)
+        tpath = None
+        a1 = t["args"][1]
+        if inst is not None and a1.get("k") in ("copy", "move") and not a1["p"]:
+            tpath = ax.F.types[inst["locals"][a1["l"]]["ty"]].get("path")
+        if isinstance(rng, St) and tpath:
+            fs = [ip.materialize(f) for f in rng.fields]
+            fs = [f.iv if isinstance(f, DiscrIn) else f for f in fs]
+            lo = hi = None
+            if tpath == "core::ops::RangeTo" and len(fs) == 1:
+                lo, hi = usize(0), fs[0]
+            elif tpath == "core::ops::RangeFrom" and len(fs) == 1:
+                lo, hi = fs[0], v.len
+            elif tpath == "core::ops::Range" and len(fs) == 2:
+                lo, hi = fs[0], fs[1]
+            elif tpath == "core::ops::RangeFull":
+                return Rf(place, v, mutable), st
+            if isinstance(lo, In) and isinstance(hi, In):
+                if hi.hi > v.len.lo or lo.hi > hi.lo:
+                    ip.event("panic:index", inst, bi, "slice range may be out of bounds", t.get("span"))
+                n = In(max(hi.lo - lo.hi, 0), max(hi.hi - lo.lo, 0), 64, False)
+                n = In(min(n.lo, v.len.hi), min(n.hi, v.len.hi), 64, False)
+                sub = Vc(v.elem, n)
+                # writes through a sub-slice reach the parent only as weak element updates
+                return Rf((place[0], place[1], place[2] + (("s",),)) if place is not None and mutable else None, sub, mutable), st
+        return Rf(None, Vc(v.elem, In(0, v.len.hi, 64, False)), mutable), st
     return h
 
 
@@ -754,8 +779,8 @@ def h_sum(ax, ip, inst, fid, bi, st, t, fn, args, argpl, dty):
         ivs = []
         lo = e.lo()
         hi = e.hi()
-        if not e.has_finite():
-            return Fl((), e.pinf, e.ninf, e.nan or (e.pinf and e.ninf)), st
+        if not e.ivs:
+            return Fl((), e.pinf, e.ninf, e.nan or (e.pinf and e.ninf), e.nz), st
         l0, h0 = e.ivs[0][0], e.ivs[-1][2]
         lc, hc = e.ivs[0][1], e.ivs[-1][3]
         nlo = l0 * ln.lo if l0 >= 0 else (V.NINF if ln.hi > 1 << 40 else l0 * ln.hi) if l0 != V.NINF else V.NINF
